@@ -196,3 +196,68 @@ def _cdirect(what, h0, s0, z0, s1, z1, s2, z2, dup, early, target, no_holes, rea
         return views_ok(w.c, w, objs, ABSENT)
     finally:
         w.cleanup()
+
+
+def _should(name, source_compressed, length, size, spos, zs, z):
+    """should_compress / estimate_compression on a seekable stream positioned at spos: the decision honours the mode and
+    the stream position is restored (the caller copies the object from there afterwards)."""
+    w = make_world(10**9)
+    try:
+        w.set_zlen(0, size, z)
+        w.set_codec(early=0, sample_len=zs)
+        stream = w.stream(0, size)
+        stream.seek(spos)
+        r = w.U.should_compress(stream, _mode(name), source_compressed, length, size)
+        if stream.tell() != spos:
+            return False
+        if name == 'yes':
+            return r is True
+        if name == 'no':
+            return r is False
+        if name == 'keep':
+            return r == source_compressed
+        if size == 0:
+            return r is False  # never worth compressing
+        if source_compressed:
+            return r == (length * 10 < size * 9)  # already compressed: worth it iff it saved more than 10%
+        return r is True or r is False
+    finally:
+        w.cleanup()
+
+
+def should_modes(mode: int, source_compressed: bool, length: int, size: int, spos: int, zs: int, z: int) -> bool:
+    """
+    pre: 0 <= mode <= 2 and 0 <= length <= 300000 and 0 <= size <= 300000 and 0 <= spos <= size
+    pre: 1 <= zs <= 300000 and 2 <= z <= 300000
+    post: _
+    """
+    return _should(('yes', 'no', 'keep')[mode], source_compressed, length, size, spos, zs, z)
+
+
+def should_auto_packed(length: int, size: int, spos: int, zs: int, z: int) -> bool:
+    """
+    pre: 0 <= length <= 300000 and 0 <= size <= 300000 and 0 <= spos <= size
+    pre: 1 <= zs <= 300000 and 2 <= z <= 300000
+    post: _
+    """
+    return _should('auto', True, length, size, spos, zs, z)
+
+
+def should_auto_small(size: int, spos: int, zs: int, z: int) -> bool:
+    """
+    AUTO on an uncompressed source of up to 16 KiB (the sampling loop reads the whole object, 1 KiB at a time).
+    pre: 0 <= size <= 16384 and 0 <= spos <= size
+    pre: 1 <= zs <= 300000 and 2 <= z <= 300000
+    post: _
+    """
+    return _should('auto', False, size, size, spos, zs, z)
+
+
+def should_auto_big(size: int, spos: int, zs: int, z: int) -> bool:
+    """
+    AUTO on an uncompressed source above the 128 KiB sampling window (128 samples at size // 128 intervals).
+    pre: 131072 <= size <= 300000 and 0 <= spos <= size
+    pre: 1 <= zs <= 300000 and 2 <= z <= 300000
+    post: _
+    """
+    return _should('auto', False, size, size, spos, zs, z)
